@@ -118,6 +118,11 @@ class PoolScenario(Scenario):
         elif op in ("zero", "copy"):
             h = s.pick(ab.handles())
             st.update(obj=h, out=ab.new(ab.objs[h]["k"], ab.objs[h]["mut"], op))
+        elif op == "iadd_many":
+            hs = ab.handles(mut=True)
+            if not hs:
+                return []
+            st.update(obj=s.pick(hs), n=s.pick([300, 600, 1100]))
         elif op == "immutable":
             h = s.pick(ab.handles())
             st.update(obj=h, out=ab.new(ab.objs[h]["k"], False, op))
@@ -274,6 +279,24 @@ class PoolScenario(Scenario):
             if o.ok:
                 w.put(st["out"], o.value, k=w.meta[st["obj"]]["k"], via=op, mut=w.meta[st["obj"]]["mut"])
             return o, set()
+        if op == "iadd_many":
+            # a long-running accumulator: the same object is the target of += hundreds of times (here with empty partials)
+            if not w.has(st["obj"]):
+                return None, set()
+            a = w.heap[st["obj"]]
+
+            def many():
+                x = a
+                z = a.zero()
+                for _ in range(int(st["n"])):
+                    x += z
+                return x
+
+            o = call(many)
+            if o.ok and o.value is not a:
+                w.heap[st["obj"]] = o.value
+            w.bump("probe_many_inplace_merges")
+            return o, {st["obj"]}
         if op == "immutable":
             if not w.has(st["obj"]):
                 return None, set()
